@@ -34,13 +34,33 @@ type c08Node struct {
 	cutOff   bool // the context it was called with was cancelled before it had answered
 	// versionFails: the node does not answer the version request at the moment (restarting, unreachable)
 	versionFails bool
+	// versionLatency: how long the node takes over the version request (every time it is asked)
+	versionLatency time.Duration
+}
+
+// answered: the instant, counted from the start of the submission, at which the node's answer has been
+// received and classified: the version request made ahead of the submission, the submission, and for a
+// rejection the version request made to classify it.
+func (n *c08Node) answered() time.Duration {
+	t := n.versionLatency + n.latency
+	if n.behave == bRejectOther || n.behave == bRejectTolerated {
+		t += n.versionLatency
+	}
+	return t
 }
 
 func (n *c08Node) Name() string    { return n.name }
 func (n *c08Node) Address() string { return n.name }
 func (n *c08Node) IsActive() bool  { return true }
 func (n *c08Node) IsSynced() bool  { return true }
-func (n *c08Node) NodeVersion(_ context.Context, _ *api.NodeVersionOpts) (*api.Response[string], error) {
+func (n *c08Node) NodeVersion(ctx context.Context, _ *api.NodeVersionOpts) (*api.Response[string], error) {
+	if n.versionLatency > 0 {
+		select {
+		case <-ctx.Done():
+			return nil, ctx.Err()
+		case <-time.After(n.versionLatency):
+		}
+	}
 	if n.versionFails {
 		return nil, errors.New("mock node version failure")
 	}
@@ -131,13 +151,26 @@ func c08Nodes(n int, tolerated []struct{ client, text string }, real []struct{ c
 // VerifC08_Attestations: attestations reach every node in full, and the
 // submission succeeds iff a node accepted or tolerably rejected it in time.
 func VerifC08_Attestations() {
-	c08Attestations(vnd.IntRange("nodes", 1, 2), vnd.IntRange("payload", 1, 3))
+	c08Attestations(vnd.IntRange("nodes", 1, 2), vnd.IntRange("payload", 1, 3), false)
 }
 
-func c08Attestations(n int, p int) {
+// VerifC08_AttestationsSlowVersion: the same with a first node that takes its time over the version
+// request (asked ahead of every submission and again to classify a rejection): the request's time is
+// part of the node's answer time, whatever share of the timeout it takes.
+func VerifC08_AttestationsSlowVersion() { c08Attestations(1, 1, true) }
+
+// VerifC08_AttestationsSlowVersion2: one or two nodes (thorough).
+func VerifC08_AttestationsSlowVersion2() { c08Attestations(vnd.IntRange("nodes", 1, 2), 1, true) }
+
+func c08Attestations(n int, p int, slowVersion bool) {
 	timeout := time.Duration(vnd.I64("timeout"))
 	vnd.Assume(timeout >= 2 && timeout <= 60000) // virtual nanoseconds
 	nodes := c08Nodes(n, c08Tolerated, c08Real)
+	if slowVersion {
+		// the version request is part of the node's answer time, whatever share of the timeout it takes
+		nodes[0].versionLatency = time.Duration(vnd.I64("version-latency"))
+		vnd.Assume(nodes[0].versionLatency > 0 && nodes[0].versionLatency <= 60000)
+	}
 	conc := int64(vnd.IntRange("process-concurrency", n, 3))
 	s := c08New(timeout, conc, nodes)
 	payload := make([]*phase0.Attestation, p)
@@ -167,7 +200,7 @@ func c08Attestations(n int, p int) {
 			vnd.Assert(vnd.Implies(nd.latency < timeout, !nd.cutOff), "C08.attestations.delivery-to-a-slower-node-is-not-abandoned")
 		}
 		if nd.behave == bAccept || nd.behave == bRejectTolerated {
-			okInTime = vnd.Or(okInTime, nd.latency < timeout)
+			okInTime = vnd.Or(okInTime, nd.answered() < timeout)
 		}
 	}
 	if err == nil {
@@ -175,6 +208,8 @@ func c08Attestations(n int, p int) {
 		anyOk := false
 		for _, nd := range nodes {
 			if nd.behave == bAccept || nd.behave == bRejectTolerated {
+				// (the submission itself cannot have been answered before its latency was up; how the
+				// version requests are scheduled around it is the implementation's business)
 				anyOk = vnd.Or(anyOk, nd.latency <= elapsed)
 			}
 		}
@@ -301,4 +336,4 @@ func VerifC16_SyncMessageErrorBody() {
 }
 
 // VerifC08_Attestations3: three nodes, one attestation.
-func VerifC08_Attestations3() { c08Attestations(3, 1) }
+func VerifC08_Attestations3() { c08Attestations(3, 1, false) }
